@@ -69,13 +69,21 @@ def windows_for(n, m, rng, quick):
     return sorted(ws)
 
 
-def impl_read(ds, var, sel, w, g):
+def impl_read(ds, var, sel, w, g, verbose=False):
     from homonim.raster_array import RasterArray
+    import logging
     rlo, rhi, clo, chi = w
+    # (verbose: the package's logger at DEBUG, as under `homonim -v`; what is logged is no business of the result)
+    lg = logging.getLogger('homonim')
+    old_level = lg.level
+    if verbose:
+        lg.setLevel(logging.DEBUG)
     try:
         ra = RasterArray.from_rio_dataset(ds, indexes=sel, window=Window(clo, rlo, chi - clo, rhi - rlo))
     except Exception as ex:
         return 'err', f'{type(ex).__name__}: {str(ex)[:100]}', None
+    finally:
+        lg.setLevel(old_level)
     a = ra.array if ra.array.ndim == 3 else ra.array[None]
     mask = ra.mask
     rows = []
@@ -122,9 +130,9 @@ def run(run: common.Run):
                         idx += 1
                         if run.only is not None and idx not in run.only:
                             continue
-                        case = dict(i=idx, n=n, m=m, variant=var['name'], window=w)
+                        case = dict(i=idx, n=n, m=m, variant=var['name'], window=w, verbose=idx % 3 == 0)
                         rlo, rhi, clo, chi = w
-                        rep, err, geo = impl_read(ds, var, sel, w, g)
+                        rep, err, geo = impl_read(ds, var, sel, w, g, verbose=case['verbose'])
                         run.evaluations += 1
                         inside = rlo >= 0 and clo >= 0 and rhi <= n and chi <= m and rhi > rlo and chi > clo
                         disjoint = rhi <= 0 or chi <= 0 or rlo >= n or clo >= m
